@@ -47,7 +47,7 @@ Proof. exact deepcopy_disciplined. Qed.
 Print Assumptions Gen_deepcopy_ok.
 
 (* No row is excused as a known finding any more: both confirmed races are repaired in /repo
-   (db2770f: read lock in IsNamespaceScoped; <COMMIT>: SetSchema keeps the parsed schema for the version in use). *)
+   (db2770f: read lock in IsNamespaceScoped; 5e76c27: SetSchema keeps the parsed schema for the version in use). *)
 Theorem Gen_globals_no_findings : finding_rows var_prots allow_list gen_accesses = [].
 Proof. exact globals_no_findings. Qed.
 Print Assumptions Gen_globals_no_findings.
@@ -80,7 +80,7 @@ Proof. exact disciplined_builds_race_free. Qed.
 Print Assumptions C16_race_free_default_schema.
 
 (* (The former C16_race_free_refuted — the re-run of initSchema provoked by an explicit built-in version racing with the
-   unlocked reads — is kept as the regression example ConcExamples.reinit_race: since /repo <COMMIT> a build that names the
+   unlocked reads — is kept as the regression example ConcExamples.reinit_race: since /repo 5e76c27 a build that names the
    version in use no longer re-arms initSchema, so its call sequence is the one of build_a.) *)
 
 (* Result independence. Builds that use the built-in schema (no openapi field or the default version spelled
